@@ -1,5 +1,5 @@
 (** C19 — only deposit messages can take assets from their sender. *)
-From FM Require Import Deposits.
+From FM Require Import Deposits ReentrantDeep.
 
 (** Deposit messages: the four that create or top up a listing or bucket with attached coins.
     Everything else — fee cycle, change ask, finalize, delete, remove bucket, buy, withdraw, and
@@ -47,3 +47,12 @@ Example C19_hyps_met :
   is_deposit_msg (Finalize 7 600) = false /\
   bank (fst (step w0 (Exec 1 [(0, 7)] (AddToListing 7) None))) 1 0 = 983.
 Proof. splits; vm_compute; reflexivity. Qed.
+
+
+(** Whatever a hostile token contract does while the marketplace's messages are being dispatched —
+    re-entering to any depth (model/ReentryDeep.v) — an account that initiates none of the calls
+    involved loses nothing: assets are taken only from the sender of a (deposit) message. *)
+Theorem C19_bystanders_lose_nothing_with_deep_reentry : forall w o k a,
+  op_initiator o <> Some a -> reaction_not_by a k -> a <> self_addr w -> nondecr w (fst (gstep k w o)) a.
+Proof. exact gstep_others_nondecreasing. Qed.
+Print Assumptions C19_bystanders_lose_nothing_with_deep_reentry.
